@@ -35,6 +35,7 @@ inline bool op_processes(uint8_t k) { return k == OP_UPDATE || k == OP_REACT || 
 inline bool op_activates(const Op& o) { return (o.k == OP_CONSTRUCT && !VX_MANUAL) || o.k == OP_ENTER; }
 
 static EvA g_event{41};
+static EvB g_event_b{77};
 static QA g_query{43};
 
 #if VX_SER
@@ -58,7 +59,11 @@ inline OpResult apply(const Op& op, int slot) {
 	g_alloc.in_lib = 1;
 	switch (op.k) {
 	case OP_UPDATE: m.update(); break;
-	case OP_REACT: G.event = &g_event; m.react(g_event); break;
+	case OP_REACT:
+#if VX_EVB
+		if (op.a) { G.event = &g_event_b; m.react(g_event_b); break; }   // the second event type
+#endif
+		G.event = &g_event; m.react(g_event); break;
 	case OP_QUERY: G.event = &g_query; m.query(g_query); break;
 #if VX_TFORM
 	case OP_CHANGE: tdispatch<TF_Change>(op.a, m); break;
@@ -155,6 +160,7 @@ inline void op_text(Text& t, const Op& op) {
 	case OP_PLAN_CHANGE: t.add("plan.change(%d,%d)", op.a, op.b); break;
 	case OP_PLAN_CHANGEW: t.add("plan.changeWith(%d,%d,p%d)", op.a, op.b, op.c); break;
 	case OP_PLAN_REMOVE: t.add("plan.iterate-remove(mask=%u)", op.a); break;
+	case OP_REACT: t.add(op.a ? "react(EvB)" : "react()"); break;
 	default: t.add("%s()", OP_NAME[op.k]); break;
 	}
 }
